@@ -24,6 +24,39 @@ class Raised(Exception):
 _EXTERNAL = None
 
 
+MAX_EPOCH = 253402300799        # 9999-12-31T23:59:59Z
+
+
+def epoch_bounded(v):
+    """is the seconds value handed to datetime.fromtimestamp visibly inside datetime's range: masked with a constant not
+    above MAX_EPOCH, the value of a numeric field of at most 4 bytes, or a quotient / remainder of such a value"""
+    if isinstance(v, bool):
+        return True
+    if isinstance(v, int):
+        return 0 <= v <= MAX_EPOCH
+    if isinstance(v, Sym):
+        if v.op == 'and':
+            return any(isinstance(a, int) and not isinstance(a, bool) and 0 <= a <= MAX_EPOCH for a in v.args)
+        if v.op in ('floordiv', 'mod', 'rshift') and len(v.args) == 2 and isinstance(v.args[1], int) and v.args[1] > 0:
+            return epoch_bounded(v.args[0]) or (v.op == 'mod' and v.args[1] <= MAX_EPOCH)
+        if v.op == 'phi':
+            return all(epoch_bounded(a) for a in v.args)
+        if v.op in ('index', 'elem') and v.args:
+            return epoch_bounded(v.args[0])
+        if v.op == 'call' and len(v.args) >= 2 and v.args[0] == 'struct.unpack' and isinstance(v.args[1], str):
+            import struct
+            try:
+                return struct.calcsize(v.args[1]) <= 4
+            except struct.error:
+                return False
+        if v.op in ('call', 'int') and v.args and v.op == 'int':
+            return epoch_bounded(v.args[0])
+    if isinstance(v, FieldV) and v.op is not None:
+        size = v.op.args.get('size', v.op.args.get('item_size'))
+        return isinstance(size, int) and size <= 4
+    return False
+
+
 def external_table():
     global _EXTERNAL
     if _EXTERNAL is None:
@@ -692,6 +725,10 @@ class CallMixin:
         if d == 'bytearray.fromhex' or d == 'bytes.fromhex':
             return Sym(d, *args)
         ex = external_table()['raises'].get(d)
+        if d in ('datetime.datetime.fromtimestamp', 'datetime.datetime.utcfromtimestamp') and args and not is_const(a0):
+            # datetime covers years 1..9999: a wire value is inside that range only when it is visibly bounded
+            if not epoch_bounded(a0):
+                ex = ['builtins.ValueError', 'builtins.OverflowError', 'builtins.OSError']
         if ex and not all(is_const(a) for a in args):
             self.risk(fr, 'ext:' + d, tuple(ex), a0, node)
         if d.split('.')[-1] in external_table()['methods'] and '.' in d and ex is None:
